@@ -9,6 +9,12 @@ CLAIMED = {
    text='buffer_to_tensors maps every buffer to exactly the operand uses on it (all subgraphs, with multiplicity); _compatible_tensor_params => same source class and, for quantized sources, equal parameters; _check_buffer_sharing returning normally => the pairwise conclusion for every listed buffer (pivot argument checked by the solver, for any number of sharers); a tensor cannot be both quantized and unquantized; quantize_tensor writes a function of the parameters only (applying it twice / for two sharers with equal parameters gives the same bytes).',
    note='Known finding (class-excluded, witness replayed every run): a tensor on a data-bearing buffer that is not an operand of any operator is invisible to the check. Which consumer entry actually quantizes the buffer (generator/performer composition) and the one-step numeric bound (C05/C17) only through the bounded end-to-end stand-in; dataclass equality of parameters trusted to be an equivalence.',
    design='§4 C15'),
+ 'C16': dict(
+   technique='contract-based deductive verification: AST symbolic executor (pyvc) over the real _serialize_large_model / _process_constant_map (bytes as integer lists, while loops cut by invariants, ghost layout function with induction lemmas), typed quantifier instantiation -> QF VCs (z3)',
+   level='proof',
+   text='For any number of buffers and any data lengths: the constant map is index-aligned with the buffers; after the two passes every data-bearing buffer has a 16-byte aligned offset, size = data length, its region is in bounds, regions are increasing and disjoint, the region holds exactly the constant, buffers without data are untouched, the total length is a multiple of 16; pass 2 reproduces the lengths of pass 1 (ghost layout function L). The size threshold selects the path on the same model object.',
+   note='ASSUMED contract of the external serializer (length independent of the values of non-zero offset/size fields; its applicability - fields non-zero at both calls - is a discharged call-site obligation, hence the precondition that constants are non-empty). Partial correctness (termination of the padding loops not verified). Interpreter load / identical outputs only by the bounded stand-in through the AI_EDGE_QUANTIZER_VERIF hook.',
+   design='§4 C16'),
  'C17': dict(
    technique='contract-based deductive verification: CPython-executed symbolic arrays over the real numpy code -> QF nonlinear real/integer VCs (z3, cvc5), IEEE binary32 VCs for finiteness; spec-level lemma chains',
    level='proof',
@@ -122,7 +128,7 @@ def main():
     na = [dict(property_id=p, reason=NOT_APPLICABLE.get(p, PENDING)) for p in props if p not in CLAIMED]
     m = dict(version=1, setup_cmd='sh setup.sh',
              hooks=dict(guard='AI_EDGE_QUANTIZER_VERIF', enable='checks export AI_EDGE_QUANTIZER_VERIF=1 (set by ./vrun); python package, nothing to rebuild',
-                        baseline_off_cmd='sh checks/baseline.sh', source_commits=[], add_only=True),
+                        baseline_off_cmd='sh checks/baseline.sh', source_commits=['00a53e7'], add_only=True),
              engines=[dict(name='pyvc', path='vlib/', serves_properties=sorted(CLAIMED), kind_free_text='VC generation from the real Python source (AST symbolic executor with sidecar contracts; CPython-executed symbolic numpy arrays; opaque-integer exhaustive execution of finite skeletons; frame analysis) discharged by z3 / cvc5')],
              checks=checks, not_applicable=na,
              notes='Contract-based deductive verification of the real code; see DESIGN.md. Replay files are written under out/. Known findings: known_findings.json.')
